@@ -1,5 +1,10 @@
-(* C14 -- RENUM (statements grow with Proofs/Renum.v). *)
-From BL Require Import Base.Prelude Lang.Token Mach.Listing.
+(* C14 -- RENUM preserves the program and rewrites every reference, or changes nothing.
+   Proved (Proofs/Renum.v): the change map is built completely before any line is touched, so a failing RENUM leaves the
+   listing as it was; lines below old-start are not in the map; the j-th line at or above old-start is mapped to
+   new-start + j*step, which is at most 65529; the renumbered listing is rebuilt by ordered insertion (C15's invariant).
+   NOT proved: that the text splice rewrites exactly the line-number operands and nothing else (checked by the C14
+   monitor, which re-parses every renumbered line and compares it with the original modulo the map). *)
+From BL Require Import Base.Prelude Lang.Token Mach.Listing Proofs.Renum.
 Local Open Scope N_scope.
 
 (* a failing RENUM returns an error before any line is touched: the change map is built first *)
@@ -9,3 +14,27 @@ Proof.
   destruct (N.eqb_spec c 0) as [-> | _]; [contradiction |]. rewrite H. reflexivity.
 Qed.
 Print Assumptions C14_atomic.
+
+Theorem C14_changes_shape : forall ls ns os step oe nn acc ch,
+  renum_changes ls ns os step oe nn acc = Ok ch ->
+  ch = assign acc (combine (renumbered ls os) (numbers nn step (length (renumbered ls os))))
+  /\ Forall (fun x => x <= 65529) (numbers nn step (length (renumbered ls os))).
+Proof. exact renum_changes_shape. Qed.
+Print Assumptions C14_changes_shape.
+
+Theorem C14_keeps_lower : forall ls ns os step ch k,
+  renum_changes ls ns os step 65530 ns [] = Ok ch -> k < os -> ch_get ch k = None.
+Proof. exact renum_keeps_lower. Qed.
+Print Assumptions C14_keeps_lower.
+
+Theorem C14_assigns_in_order : forall ls ns os step ch j k,
+  NoDup (map fst ls) ->
+  renum_changes ls ns os step 65530 ns [] = Ok ch ->
+  nth_error (renumbered ls os) j = Some k ->
+  ch_get ch k = Some (ns + N.of_nat j * step) /\ ns + N.of_nat j * step <= 65529.
+Proof. exact renum_assigns_in_order. Qed.
+Print Assumptions C14_assigns_in_order.
+
+Example C14_witness :
+  renum_changes [(10, []); (20, []); (35, [])] 100 20 5 65530 100 [] = Ok [(20, 100); (35, 105)].
+Proof. vm_compute. reflexivity. Qed.
